@@ -161,6 +161,10 @@ def c19_unique_cases(tier):
         yield ("unique", (2, 2, 1, 2), flat, False)
     for flat in itertools.product((0, 1, 2), repeat=6):
         yield ("unique", (3, 1, 1, 2), flat, True)
+    # several hypotheses of 3D frames: (h, t, z, y, x)
+    for flat in itertools.product((0, 1, 2), repeat=8):
+        yield ("unique", (2, 1, 2, 1, 2), flat, True)
+        yield ("unique", (1, 2, 2, 1, 2), flat, True)
     if not q:
         shape = (3, 1, 3)
         for flat in itertools.product((0, 1, 3), repeat=9):
